@@ -323,13 +323,17 @@ impl Expression for Op {
 
             // ... / ...
             Div => {
-                let td = TypeDef::float();
+                // both operands are always evaluated: their effects, fallibility and returns count
+                let rhs_value = self.rhs.resolve_constant(&state);
+                let lhs_is_number = lhs_def.is_float() || lhs_def.is_integer();
+                let rhs_def = self.rhs.apply_type_info(&mut state);
+                let td: TypeDef = lhs_def.union(rhs_def).with_kind(K::float());
 
-                // Division is infallible if the rhs is a literal normal float or integer.
-                match self.rhs.resolve_constant(&state) {
-                    Some(value) if lhs_def.is_float() || lhs_def.is_integer() => match value {
-                        Value::Float(v) if v.is_normal() => td.infallible(),
-                        Value::Integer(v) if v != 0 => td.infallible(),
+                // The division itself is infallible if the rhs is a literal normal float or integer.
+                match rhs_value {
+                    Some(value) if lhs_is_number => match value {
+                        Value::Float(v) if v.is_normal() => td,
+                        Value::Integer(v) if v != 0 => td,
                         _ => td.fallible(),
                     },
                     _ => td.fallible(),
